@@ -92,7 +92,7 @@ def keep_variants(rng, keep, n):
 
 
 def pt_ops(ctx):
-    import numqi
+    import numqi, torch
     rng = ctx.rng
     nrng = np.random.default_rng(ctx.np_seed)
     ops, impl = [], []
@@ -122,6 +122,11 @@ def pt_ops(ctx):
                 ops.append(f'C17 pt {ds} {ks} {gint_list(rho)}')
                 VARIANTS[ops[-1]] = kv
                 impl.append(guarded(lambda: gint_list(numqi.utils.partial_trace(rho, dims, kv))))
+                if len(kcanon) in (1, n - 1) or not ctx.quick():
+                    # torch input (no grad): np.einsum converts it, the result is a numpy array with the same entries
+                    ops.append(ops[-1]); VARIANTS[ops[-1]] = kv
+                    impl.append(guarded(lambda: gint_list(np.asarray(numqi.utils.partial_trace(torch.tensor(rho), dims, kv)))))
+                    ctx.count('pt-torch-input')
             else:
                 m = 40
                 xs = nrng.integers(0, D, size=m); ys = nrng.integers(0, D, size=m)
@@ -424,6 +429,39 @@ def probe(ctx):
             ctx.fail('dicke-tensor', f'get_partial_trace_ABk_to_AB_index(return_tensor=True) != <r|D_a><D_b|s> for dimB={dimB}, k={k}', rep)
         else:
             ctx.probe_ok(('red', dimA, dimB, k))
+    # (f) history of calls: the index tables are rebuilt on every call (no lru_cache in dicke.py); results must not alias each
+    # other, so mutating a returned array cannot corrupt a later call (interleaved with other (n,d) and with the tensor form)
+    hist = []
+    try:
+        ref = {}
+        seq = [(3, 2), (2, 3), (3, 2), (4, 2), (2, 3), (3, 2), (1, 2), (3, 2)]
+        bad = None
+        for step, (n, d) in enumerate(seq):
+            Bij = D_.get_partial_trace_ABk_to_AB_index(n, d)
+            T = D_.get_partial_trace_ABk_to_AB_index(n, d, return_tensor=True)
+            kl = D_.get_dicke_klist(n, d)
+            snap = ([(a.copy(), b.copy(), c.copy()) for a, b, c in Bij], T.copy(), list(kl))
+            if (n, d) in ref:
+                r0 = ref[(n, d)]
+                same = all(np.array_equal(x, y) for t0, t1 in zip(r0[0], snap[0]) for x, y in zip(t0, t1)) and np.array_equal(r0[1], snap[1]) and r0[2] == snap[2]
+                if not same:
+                    bad = (step, n, d); break
+            else:
+                ref[(n, d)] = snap
+            hist.append((n, d))
+            # vandalise everything that was returned
+            for a, b, c in Bij:
+                a += 1; b += 1; c *= -3.0
+            T *= 0
+            if isinstance(kl, list):
+                kl.clear()
+        if bad:
+            ctx.fail('dicke-index-history', f'get_partial_trace_ABk_to_AB_index / get_dicke_klist returned different data at call #{bad[0]} for (n,d)=({bad[1]},{bad[2]}) after earlier results were mutated (aliasing through a cache)',
+                     dict(op='call-history', sequence=seq, failing_step=bad[0]))
+        else:
+            ctx.probe_ok(('history', tuple(seq)))
+    except Exception as e:
+        ctx.fail('dicke-index-history-raises', f'{type(e).__name__}: {e}', dict(op='call-history', calls=hist))
     for dimA, dimB, k in [(2, 2, 2), (2, 3, 3), (3, 2, 4)]:
         rep = dict(op='PureBosonicExt.forward', dimA=dimA, dimB=dimB, k=k)
         try:
